@@ -205,6 +205,15 @@ def run(pid, tier, seed, replay, mode):
         for i in range(ncirc):
             yield gen_circuit(rs, i, tier), False
         if mode == "marg":
+            # wide Chow-Liu trees (16-22 variables) as leaves of a small mixture: many NaN rows of one batch differ only in a few
+            # positions, and 3^16 exceeds what single precision can count
+            from deeprob.spn.structure.node import Sum as _Sum, Product as _Prod, assign_ids as _aid
+            from deeprob.spn.structure.leaf import Bernoulli as _Be
+            for _ in range(2 if tier == "quick" else 12):
+                nv = int(rs.randint(16, 23)); sc = list(range(nv))
+                mix = _Sum(children=[G.rand_clt(rs, sc), G.rand_clt(rs, sc)], weights=np.array(G.dyadic_weights(rs, 2), dtype=np.float32))
+                r_ = _Prod(children=[mix, _Be(nv, float(rs.randint(1, 16) / 16.0))]); _aid(r_)
+                yield r_, False
             # learned circuits (structured-decomposable XPCs and LearnSPN with Chow-Liu leaves): their leaves have been through
             # the learners' own sequence of constructor / fit calls
             from . import c10
